@@ -99,12 +99,14 @@ func checkC05(c *core.Ctx) error {
 			tag := fmt.Sprintf("[n=%d]", n)
 			Am := vn.NewLocalMat(n, n, func(i, j int) *sym.Term { return A(i, j) })
 			zero := func() *vn.LocalMat { return vn.NewLocalMat(n, n, func(i, j int) *sym.Term { return sym.Zero() }) }
-			params := map[string]vn.Value{"A": Am, "L": zero(), "s": &vn.Loc{Name: "s", Val: symf("stale_s"), Consistent: true}, "t": &vn.Loc{Name: "t", Val: symf("stale_t"), Consistent: true}}
+			sLoc := &vn.Loc{Name: "s", Val: symf("stale_s"), Consistent: true}
+			tLoc := &vn.Loc{Name: "t", Val: symf("stale_t"), Consistent: true}
+			params := []vn.Value{Am, zero(), sLoc, tLoc} // cholesky(A, L, s, t)
 			if variant.ldl {
-				params["D"] = zero()
+				params = []vn.Value{Am, zero(), zero(), sLoc, tLoc} // cholesky_ldl(A, L, D, s, t)
 			}
 			cfg := vn.Config{Pkg: p, TypeName: "Real64", Spec: distSpec, InlineOps: inlineOps, Decl: d.find, ParamNames: true, MaxDepth: 8, UnrollConst: true, FiniteSyms: true,
-				ParamValues: params, ParamFresh: true}
+				ParamList: params, ParamFresh: true}
 			paths, und := vn.Run(cfg, fd)
 			if und != nil {
 				c.Unknown(variant.rule, cons, "interpreted "+tag, und.Pos, variant.fn+" left the interpreter's idiom set: "+und.Msg)
